@@ -48,8 +48,13 @@ func VerifyCallsites(p *Program, fc *FuncContract, prop string) (u *Unit) {
 				return
 			}
 			ast.Inspect(n, func(n ast.Node) bool {
-				switch n.(type) {
-				case *ast.BlockStmt, *ast.CaseClause, *ast.FuncLit, *ast.CommClause:
+				switch fl := n.(type) {
+				case *ast.FuncLit:
+					// a closure may run at any time after its creation: its body is checked from an arbitrary state
+					// of the captured variables (no outer frames, so nothing of the enclosing function is assumed)
+					walk(fl.Body.List, nil)
+					return false
+				case *ast.BlockStmt, *ast.CaseClause, *ast.CommClause:
 					return false
 				}
 				call, ok := n.(*ast.CallExpr)
